@@ -148,13 +148,15 @@ fn compile(source: &str) -> Compiled {
     let mut program = Program::new();
     let mut module_cache = ModuleCache::new();
     let resolver = PackageResolver::memory(HashMap::new());
+    // as quiv run (after the F58 repair): the parameter is the nil *type*, not the NIL tuple id
+    let entry_param_type = program.register_type(quiver_core::types::Type::nil());
     let compiled = Compiler::compile(
         ast,
         &HashMap::new(),
         &mut module_cache,
         &resolver,
         &mut program,
-        quiver_core::types::NIL,
+        entry_param_type,
         &HashMap::new(),
         &builtins,
         None,
